@@ -545,6 +545,67 @@ Section Erase.
     destruct (frag_decls S F A []) as [e1 by_name].
     rewrite (inspect_ext _ _ _ decl_enter_erase). reflexivity.
   Qed.
+
+  (** *** validateVariables: the only place it reads the schema is the input-type test of a variable's
+      resolved type — a slot NewTypeInfo fills with visible types only *)
+  Lemma vardefs_loop_erase vars : forall seen,
+    (forall v, In v vars -> vis_osty (vd_ann v)) -> vardefs_loop E vars seen = vardefs_loop S vars seen.
+  Proof.
+    induction vars as [|v r IH]; intros seen H; [reflexivity|]. cbn [vardefs_loop].
+    rewrite IH by (intros x Hx; apply H; right; exact Hx).
+    destruct (vd_ann v) as [t|] eqn:A; [|reflexivity].
+    pose proof (H v (or_introl eq_refl)) as V. rewrite A in V. simpl in V.
+    rewrite (raw_body_erase _ V). destruct (raw_body S (unwrapped t)) as [b|]; [|reflexivity].
+    cbn [option_map]. destruct b; reflexivity.
+  Qed.
+
+  Definition wa_def (d : definition) : Prop :=
+    match d with
+    | DOp _ _ vars _ _ => forall v, In v vars -> vis_osty (vd_ann v)
+    | DFrag _ _ _ _ _ _ => True
+    end.
+
+  Lemma ti_def_wa q stack d d' : ti_def q S F stack d = Some d' -> wa_def d'.
+  Proof.
+    destruct d as [ot n vars dirs sub | kw n np cond dirs sub]; cbn [ti_def].
+    - destruct (ti_ss q S F _ sub) as [sub'|]; [|discriminate]. intro H; inversion H; subst d'. clear H.
+      intros v Hv. apply in_map_iff in Hv as [v0 [Ev _]]. subst v. cbn [ti_vardef vd_ann].
+      destruct (schema_type S F (vd_type v0)) as [x|] eqn:ST; [|exact I]. simpl.
+      apply (proj2 (schema_type_erase (vd_type v0)) x ST).
+    - destruct (ti_ss q S F _ sub) as [sub'|]; [|discriminate]. intro H; inversion H; subst d'. exact I.
+  Qed.
+
+  Lemma seq_opt_In {A} (l : list (option A)) : forall r a, seq_opt l = Some r -> In a r -> In (Some a) l.
+  Proof.
+    induction l as [|o l' IH]; intros r a H Ha.
+    - inversion H; subst. contradiction.
+    - cbn [seq_opt fold_right] in H. fold (seq_opt l') in H.
+      destruct o as [x|]; [|discriminate]. destruct (seq_opt l') as [r'|] eqn:R; [|discriminate].
+      inversion H; subst r. destruct Ha as [Ha | Ha]; [subst; left; reflexivity | right; eapply IH; eauto].
+  Qed.
+
+  Lemma type_info_wa q D A : type_info q S F D = Some A -> forall d, In d A -> wa_def d.
+  Proof.
+    unfold type_info. intros H d Hd. pose proof (seq_opt_In _ _ _ H Hd) as HI.
+    apply in_map_iff in HI as [d0 [E0 _]]. eapply ti_def_wa; eauto.
+  Qed.
+
+  Lemma fold_left_ext_in {A B} (f g : A -> B -> A) (l : list B) :
+    (forall a x, In x l -> f a x = g a x) -> forall a0, fold_left f l a0 = fold_left g l a0.
+  Proof.
+    induction l as [|x r IH]; intros H a0; [reflexivity|]. cbn [fold_left].
+    rewrite (H a0 x (or_introl eq_refl)). apply IH. intros a y Hy. apply H. right; exact Hy.
+  Qed.
+
+  (** validateVariables on the document NewTypeInfo annotated *)
+  Theorem rule_variables_erase q pi D A :
+    type_info q S F D = Some A -> rule_variables pi E A = rule_variables pi S A.
+  Proof.
+    intro TI. unfold rule_variables. f_equal. apply fold_left_ext_in. intros st d Hd.
+    pose proof (type_info_wa q D A TI d Hd) as W.
+    destruct d as [ot n vars dirs sub | kw n np cond dirs sub]; [|reflexivity].
+    unfold vars_op. rewrite (vardefs_loop_erase vars [] W). reflexivity.
+  Qed.
 End Erase.
 
 (** ** what does not close on C04's model as it stands
